@@ -187,6 +187,15 @@ func (p *Pool) Contains(ip net.IP) bool {
 	return p.Network.Contains(ip)
 }
 
+// IsAllocatedTo reports whether ip is the address currently reserved for mac
+func (p *Pool) IsAllocatedTo(mac net.HardwareAddr, ip net.IP) bool {
+	p.mu.Lock()
+	defer p.mu.Unlock()
+
+	allocatedIP, exists := p.allocated[mac.String()]
+	return exists && allocatedIP.Equal(ip)
+}
+
 // MarkUnavailable marks an IP as unavailable (e.g., after DECLINE)
 func (p *Pool) MarkUnavailable(ip net.IP) {
 	p.mu.Lock()
